@@ -22,14 +22,15 @@ RULE = (
     "where both are pending, every schedule with <= 2 preemptions; whole-workflow runs with 3 workers under random / PCT "
     "schedules plus a thread running cleanup_completed_stage_claims() and cleanup_old_processed_messages() at arbitrary "
     "yield points; delivery-engine schedules (reorder, withheld acks) for the surrounding workflow, also with a retention "
-    "sweep and an operator restart of a sibling of the decided group after the workflow finished. Oracle per commit "
+    "sweep and an operator restart of a sibling of the decided group after the workflow finished; and the take-over race: "
+    "three siblings of one mutex, the first holder finished, the StartStage of the two waiters as the designated pair. Oracle per commit "
     "group of the audit log: <= 1 RUNNING stage per mutex key; a claim row changes owner only when the previous owner "
     "is complete; at quiescence every mutex stage has run; per choice group exactly one stage ever left NOT_STARTED "
     "for RUNNING and all others are CANCELED. Non-trivial = schedule with a switch inside the race (or delivery "
     "schedule differing from FIFO); distinct = trace hash."
 )
 ASSUMPTIONS = ["SQLite backend, busy timeout 0 under the cooperative scheduler", "bounded progress: a waiting mutex stage must have run once the queue is drained (virtual time, default wait budget)"]
-MIN_OBS = {"schedules_with_switch": {"quick": 1500, "thorough": 20000}, "commit_groups_checked": {"quick": 20000, "thorough": 300000}}
+MIN_OBS = {"schedules_with_switch": {"quick": 1500, "thorough": 20000}, "commit_groups_checked": {"quick": 20000, "thorough": 300000}, "takeover_schedules_with_switch": {"quick": 150, "thorough": 2500}}
 TIMEOUT = {"quick": 800, "thorough": 3400}
 
 
@@ -106,6 +107,8 @@ def gen_cases(tier: str, seed: int) -> list[dict]:
     for si in (0, 2, 3, 4, 5, 9):
         for c in range(chunks):
             cases.append({"kind": "pair", "spec": si, "chunk": c, "chunks": chunks, "seed": seed, "sample": 200 if tier == "quick" else 4000})
+    for c in range(chunks):
+        cases.append({"kind": "pair", "spec": 1, "takeover": True, "chunk": c, "chunks": chunks, "seed": seed, "sample": 200 if tier == "quick" else 4000})
     for i in range(24 if tier == "quick" else 250):
         cases.append({"kind": "whole", "i": i, "seed": seed, "runs": 12})
     for si in range(len(SPECS)):
@@ -201,9 +204,41 @@ def _cut_siblings(spec: dict):
         w.close()
 
 
+def _cut_takeover(spec: dict):
+    """Three siblings of one mutex; the first holder has FINISHED (its claim row is still there, owner terminal) and
+    the StartStage messages of the two waiters are both queued: the two take-overs race."""
+    from ..world import World
+
+    sibs = list((spec.get("mutex") or {}).values())[0][:3]
+    w = World()
+    try:
+        w.submit(spec)
+        for _ in range(300):
+            rows = w.rows()
+            if not rows:
+                return None
+            st = w.snapshot_state()["stages"]
+            done = [s for s in sibs if st[s]["status"] in oracles.COMPLETE]
+            waiting = [s for s in sibs if st[s]["status"] == "NOT_STARTED"]
+            ss = {c04._stage_id_of(r): r for r in rows if r["type"] == "StartStage"}
+            if len(done) == 1 and len(waiting) == 2 and all(st[x]["id"] in ss for x in waiting):
+                path = os.path.join(il.env.scratch_dir(), f"cut-{os.getpid()}-{random.randrange(1 << 40)}.db")
+                w.copy_db(path)
+                return path, [ss[st[x]["id"]]["id"] for x in waiting]
+            ready = w.eligible(rows)
+            if not ready:
+                return None
+            # keep the waiters' (re-queued) StartStage messages back: deliver everything else first
+            other = [r for r in ready if not (r["type"] == "StartStage" and c04._stage_id_of(r) in {st[x]["id"] for x in waiting} and done)]
+            w.deliver((other or ready)[0]["id"])
+        return None
+    finally:
+        w.close()
+
+
 def _pair(case: dict) -> dict:
     spec = SPECS[case["spec"]]()
-    cp = _cut_siblings(spec)
+    cp = _cut_takeover(spec) if case.get("takeover") else _cut_siblings(spec)
     obs: Counter = Counter()
     keys: set = set()
     violations = []
@@ -224,7 +259,9 @@ def _pair(case: dict) -> dict:
                 continue
             if info["switches"]:
                 obs["schedules_with_switch"] += 1
-                keys.add(f"{spec['name']}:{info['trace_hash']}")
+                keys.add(f"{spec['name']}{':takeover' if case.get('takeover') else ''}:{info['trace_hash']}")
+                if case.get("takeover"):
+                    obs["takeover_schedules_with_switch"] += 1
             if info["lock_blocks"]:
                 obs["schedules_with_lock_block"] += 1
             v, o = group_oracle(spec, run)
